@@ -252,7 +252,22 @@ def _is_flag(f: FuncInfo, name: str) -> bool:
     if not name.isidentifier():
         return False
     vals = [n.value for n in walk_no_nested(f.node) if isinstance(n, ast.Assign) and any(isinstance(t, ast.Name) and t.id == name for t in n.targets)]
-    return bool(vals) and all(isinstance(v, ast.Constant) and isinstance(v.value, bool) for v in vals)
+    other = [n for n in walk_no_nested(f.node) if isinstance(n, (ast.AugAssign, ast.For, ast.comprehension, ast.With, ast.NamedExpr, ast.AnnAssign))
+             and any(isinstance(t, ast.Name) and t.id == name and isinstance(t.ctx, ast.Store) for t in ast.walk(n.target if hasattr(n, "target") else n))]
+    if other:
+        return False
+    if bool(vals) and all(isinstance(v, ast.Constant) and isinstance(v.value, bool) for v in vals):
+        return True
+    # … or a local computed once (a boolean expression such as any(...)) outside every loop: the same value wherever it is read
+    if len(vals) == 1 and name not in f.params():
+        st = next(n for n in walk_no_nested(f.node) if isinstance(n, ast.Assign) and any(isinstance(t, ast.Name) and t.id == name for t in n.targets))
+        in_loop = False
+        p_ = getattr(st, "_parent", None)
+        for a_ in ast.walk(f.node):
+            if isinstance(a_, (ast.For, ast.While)) and any(x is st for b_ in (a_.body, a_.orelse) for y in b_ for x in ast.walk(y)):
+                in_loop = True
+        return not in_loop
+    return False
 
 
 def r2_registry(ctx) -> None:
